@@ -86,6 +86,11 @@ func genClEntry(r *core.Rand) clEntry {
 	for n := r.Range(1, 5); n > 0; n-- {
 		e.Body = append(e.Body, r.Pick([]string{"  * New upstream release.", "", "  * Fix a bug; closes: #123456", "    continued line", "  [ Someone ]", " -- not a trailer? no: this is indented differently", "  * a -- b"}))
 	}
+	if r.Chance(1, 25) {
+		// a change line longer than a reader's internal buffer (a long bug list / URL)
+		long := "  * closes: " + strings.Repeat(r.Pick([]string{"#123456, ", "x", "ab "}), r.Range(500, 1500)) + "end"
+		e.Body = append(e.Body[:r.Intn(len(e.Body)+1)], append([]string{long}, e.Body[r.Intn(len(e.Body)+1):]...)...)
+	}
 	e.Who = r.Pick(people)
 	e.When = time.Unix(int64(r.Intn(2000000000)), 0).In(time.FixedZone("", (r.Intn(27)-12)*1800))
 	return e
